@@ -131,9 +131,9 @@ structure Scheme where
 
 /-- `barcode.ColorScheme16` in the harness' canonical spelling. -/
 def scheme16 : Scheme :=
-  { model := "Gray16Model", bg := "Gray16/ffff,ffff,ffff,ffff", fg := "Gray16/0000,0000,0000,ffff" }
+  { model := "Gray16Model", bg := "Gray16:ffff", fg := "Gray16:0000" }
 
-def white : Colour := "Gray16/ffff,ffff,ffff,ffff"
+def white : Colour := "Gray16:ffff"
 
 inductive Err
   | rejected
